@@ -211,6 +211,56 @@ def source_hash():
     return h.hexdigest()
 
 
+def file_hashes():
+    out = {}
+    for root in ('src', 'sv'):
+        for dp, dn, fns in sorted(os.walk(os.path.join(REPO, root))):
+            dn.sort()
+            for fn in sorted(fns):
+                if fn.endswith('.py'):
+                    p = os.path.join(dp, fn)
+                    out[os.path.relpath(p, REPO)] = hashlib.sha256(open(p, 'rb').read()).hexdigest()
+    return out
+
+
+def changed_since_baseline():
+    """source files of /repo that differ from the tree the model was last validated against (harness/baseline.json).  A change is no
+    alarm: it only makes the check search harder (more generated cases, with the model) for the properties anchored in those files."""
+    p = os.path.join(VERIF, 'harness', 'baseline.json')
+    if not os.path.exists(p):
+        return []
+    base = json.load(open(p))
+    cur = file_hashes()
+    return sorted(f for f in set(base) | set(cur) if base.get(f) != cur.get(f))
+
+
+def anchors_of(pid):
+    for line in open(os.path.join(VERIF, 'properties.jsonl')):
+        j = json.loads(line)
+        if j['id'] == pid:
+            return list(j.get('anchors', {}).get('files', []))
+    return []
+
+
+PIPELINE_FILES = ['src/alignment/aligner.py', 'src/alignment/alignment_position.py', 'src/alignment/alignment_position_scorer.py',
+                  'src/alignment/segments.py', 'src/alignment/segments_factory.py', 'src/alignment/segment_chainer.py',
+                  'src/alignment/segment_with_resolved_conflicts.py', 'src/alignment/alignment_results.py', 'src/correlation/optical_map.py',
+                  'src/correlation/peak.py']
+PIPELINE_PROPS = {'C01', 'C04', 'C09', 'C11', 'C15', 'C06', 'C07'}
+E2E_PROPS = {'C01', 'C02', 'C04', 'C05', 'C06', 'C07', 'C08', 'C09', 'C10', 'C11', 'C03'}
+
+
+def relevant_files(pid):
+    """the source files whose change makes check <pid> search harder: the property's anchors, the candidate pipeline for the
+    properties that evaluate the pipeline model, and every file under src/ for the properties that run COMA end to end"""
+    rel = set(anchors_of(pid))
+    if pid in PIPELINE_PROPS:
+        rel |= set(PIPELINE_FILES)
+    if pid in E2E_PROPS:
+        rel |= set(f for f in file_hashes() if f.startswith('src/') and '/diagnostic/plot' not in f and not f.endswith('plot_alignments.py'))
+    return rel
+
+
 class Report:
     """collects what one check run did and turns it into evidence + verdict"""
 
